@@ -82,6 +82,11 @@ func runCond(c *Case) *Obs {
 	h := &hlog{}
 	L := &condLocker{who: map[int64]int{}, gates: map[int]*gate{}, pos: map[int]string{}, h: h}
 	cond := xsync.NewContextCond(L)
+	if lateL, _ := c.Cfg["late_locker"].(bool); lateL {
+		// L is an exported field (as in sync.Cond): created with another Locker, L set before first use
+		cond = xsync.NewContextCond(&sync.Mutex{})
+		cond.L = L
+	}
 	ctxs := newCtxSet()
 	var wg sync.WaitGroup
 	quiet := true
